@@ -600,6 +600,11 @@ namespace bluetoe {
                     return;
                 }
             }
+
+            // an indication that is not sent out will never be confirmed by the client:
+            // do not wait for that confirmation, or all further indications are blocked
+            if ( pending.first == details::notification_queue_entry_type::indication )
+                connection.indication_confirmed();
         }
 
         out_size = 0;
